@@ -25,6 +25,8 @@ type c12Entry struct {
 	ref       func(c red.Cmdable, ctx context.Context, s c12Step) (any, error)
 	// judge replaces the ref comparison for commands with server-side randomness.
 	judge func(e *c12Env, s c12Step, got any, gerr error) string
+	// wire (judge entries): the command the corresponding go-redis call sends.
+	wire func(s c12Step) [][]string
 	// skip: the step is not executed in the current state (blocking pops on empty lists).
 	skip func(e *c12Env, s c12Step) bool
 }
@@ -395,7 +397,33 @@ func rapid12Delta(g *c12G) int64 {
 
 // ------------------------------------------------------------------ bitmaps
 
+// c12BitShapes: whole-value bitmap shapes (raw bytes; addressed by index because a case
+// is JSON): empty, all ones, all zeroes, a single set / clear bit at the first / last
+// position, 1..3 bytes long.
+var c12BitShapes = []string{"", "\xff", "\xff\xff", "\xff\xff\xff", "\x00", "\x00\x00\x00",
+	"\x80\x00", "\x00\x01", "\x7f\xff", "\xff\xfe", "\x0f\xf0", "a"}
+
 func c12RegBits() {
+	// SetBitmap is the wrapper's Set with a value from c12BitShapes
+	c12Reg("SetBitmap", &c12Entry{typ: "bit", mtype: "string", weight: 4,
+		gen: func(g *c12G) c12Step { return c12Step{K: []string{g.key("bit")}, I: []int64{g.small(0, len(c12BitShapes)-1)}} },
+		wrap: func(e *c12Env, ctx context.Context, s c12Step) (any, error) {
+			if s.X {
+				return nil, e.r.SetCtx(ctx, s.K[0], c12BitShapes[s.I[0]])
+			}
+			return nil, e.r.Set(s.K[0], c12BitShapes[s.I[0]])
+		},
+		ref: func(c red.Cmdable, ctx context.Context, s c12Step) (any, error) {
+			return nil, c.Set(ctx, s.K[0], c12BitShapes[s.I[0]], 0).Err()
+		}})
+	// ranges: {-3..5} covers 0, -1, +-len and beyond for values of 0..3 bytes; 1 range
+	// in 4 is the whole value [0,-1]
+	bitRange := func(g *c12G) (int64, int64) {
+		if g.uni(4) == 0 {
+			return 0, -1
+		}
+		return g.small(-3, 4), g.small(-3, 5)
+	}
 	c12Reg("SetBit", &c12Entry{typ: "bit", mtype: "string", weight: 5,
 		gen: func(g *c12G) c12Step { return c12Step{K: []string{g.key("bit")}, I: []int64{g.small(0, 40), g.small(0, 1)}} },
 		wrap: func(e *c12Env, ctx context.Context, s c12Step) (any, error) {
@@ -421,7 +449,10 @@ func c12RegBits() {
 			return int(v), err
 		}})
 	c12Reg("BitCount", &c12Entry{typ: "bit", mtype: "string",
-		gen: func(g *c12G) c12Step { return c12Step{K: []string{g.key("bit")}, I: []int64{g.small(-3, 4), g.small(-3, 5)}} },
+		gen: func(g *c12G) c12Step {
+			a, b := bitRange(g)
+			return c12Step{K: []string{g.key("bit")}, I: []int64{a, b}}
+		},
 		wrap: func(e *c12Env, ctx context.Context, s c12Step) (any, error) {
 			if s.X {
 				return e.r.BitCountCtx(ctx, s.K[0], s.I[0], s.I[1])
@@ -431,9 +462,10 @@ func c12RegBits() {
 		ref: func(c red.Cmdable, ctx context.Context, s c12Step) (any, error) {
 			return c.BitCount(ctx, s.K[0], &red.BitCount{Start: s.I[0], End: s.I[1]}).Result()
 		}})
-	c12Reg("BitPos", &c12Entry{typ: "bit", mtype: "string",
+	c12Reg("BitPos", &c12Entry{typ: "bit", mtype: "string", weight: 3,
 		gen: func(g *c12G) c12Step {
-			return c12Step{K: []string{g.key("bit")}, I: []int64{g.small(0, 1), g.small(-3, 4), g.small(-3, 5)}}
+			a, b := bitRange(g)
+			return c12Step{K: []string{g.key("bit")}, I: []int64{g.small(0, 1), a, b}}
 		},
 		wrap: func(e *c12Env, ctx context.Context, s c12Step) (any, error) {
 			if s.X {
